@@ -56,6 +56,15 @@ THEOREMS = [
     "JanetModel.Props.C11.jdn_roundtrip_nested",
     "JanetModel.Props.C11.eatP_is_consume",
     "JanetModel.Props.C11.keq_ignores_source_maps",
+    "JanetModel.Props.C11.jdn_printer_shape",
+    "JanetModel.Props.C11.insert_preserves_wf",
+    "JanetModel.Props.C11.wf_reachable_with_insert",
+    "JanetModel.Props.C11.error_latch",
+    "JanetModel.Props.C11.dead_latch",
+    "JanetModel.Props.C11.latch_release",
+    "JanetModel.Props.C11.eof_after_any_bytes",
+    "JanetModel.Props.C11.eof_outcome_any",
+    "JanetModel.Props.C11.finish_drains",
 ]
 ENV = dict(os.environ, ASAN_OPTIONS="detect_leaks=0:abort_on_error=0", UBSAN_OPTIONS="print_stacktrace=1")
 BAD_MARKS = ("PANIC", "SECOND-ERROR", "BADCOUNT", "SHORT", "NOTNIL", "BADWRAP", "NOT-A-STRING", "BADOP", "bad-op")
